@@ -486,7 +486,7 @@ def run_cases(run, cases, nfd):
 
 def correspond(run):
     quick = run.tier == "quick"
-    n = 45 if quick else 2500
+    n = 110 if quick else 2500
     cases = common.load_corpus(PROP) + [gen_case(run.rng, big=(not quick or i % 5 == 0)) for i in range(n)]
     dis, pf = run_cases(run, cases, nfd=2 if quick else 4)
     run.coverage["traces_validated_against_impl"] = run.coverage["evaluations"]
